@@ -159,7 +159,7 @@ theorem scanOrders_frame (m : LinMod) (ep chain : Nat) (hc : chain ≠ 0xff) (hr
       have hord : ord < m.len := by
         simp only [ord, wrapped]
         by_cases hw : nord ≥ m.len
-        · simp only [hw, decide_true, if_true]; exact restartOrd_lt m ep chain _ hrst hep
+        · simp only [hw, decide_true, if_true]; exact restartOrd_lt m ep chain _ _ hrst hep
         · simp [hw]; omega
       split at h
       · simp only [Outcome.finished.injEq] at h
@@ -168,7 +168,11 @@ theorem scanOrders_frame (m : LinMod) (ep chain : Nat) (hc : chain ≠ 0xff) (hr
         exact hF1
       · split at h
         · split at h
-          · exact hF1.trans (ih _ _ _ _ _ hl1 h)
+          · have h' : scanOrders m ep chain fuel skipTo
+                { st1 with endMark := if isEnd = true then some ord else st1.endMark } = .finished stF oF rF := h
+            have hFe : Frame chain st1 { st1 with endMark := if isEnd = true then some ord else st1.endMark } :=
+              Frame.of_eq chain st1 _ rfl rfl
+            exact (hF1.trans hFe).trans (ih _ _ _ _ _ (by exact hl1) h')
           · simp only [Outcome.finished.injEq] at h
             obtain ⟨e1, _, _⟩ := h
             subst e1
@@ -178,7 +182,11 @@ theorem scanOrders_frame (m : LinMod) (ep chain : Nat) (hc : chain ≠ 0xff) (hr
             show m.len ≤ (st1.ctl.set ord chain).length
             rw [List.length_set]; exact hl1
           split at h
-          · exact hF2.trans (ih _ _ _ _ _ hl2 h)
+          · have h' : scanOrders m ep chain fuel skipTo
+                { st2 with endMark := if isEnd = true then some ord else st2.endMark } = .finished stF oF rF := h
+            have hFe : Frame chain st2 { st2 with endMark := if isEnd = true then some ord else st2.endMark } :=
+              Frame.of_eq chain st2 _ rfl rfl
+            exact (hF2.trans hFe).trans (ih _ _ _ _ _ (by exact hl2) h')
           · split at h
             · simp only [Outcome.finished.injEq] at h
               obtain ⟨e1, _, _⟩ := h
@@ -245,12 +253,12 @@ theorem scanOrders_sanity (m : LinMod) (ep chain fuel nord : Nat) (st : ScanSt) 
   rw [scanOrders]; simp only [h, if_true]
 
 theorem scanOrders_wrap_end (m : LinMod) (ep chain fuel nord : Nat) (st : ScanSt) (hw : nord ≥ m.len)
-    (hs : isEndMark m (restartOrd m ep chain st.ctl)) (hosv : st.osv ≤ 512) :
+    (hs : isEndMark m (restartOrd m ep chain st.ctl st.endMark)) (hosv : st.osv ≤ 512) :
     scanOrders m ep chain (fuel + 1) nord st =
-      .finished { st with osv := st.osv + 1 } (restartOrd m ep chain st.ctl) 0 := by
+      .finished { st with osv := st.osv + 1, endMark := none } (restartOrd m ep chain st.ctl st.endMark) 0 := by
   obtain ⟨h1, h2, h3⟩ := hs
   have hosv' : ¬ st.osv > 512 := by omega
-  have hend : (m.marker && m.patOf (restartOrd m ep chain st.ctl) == 0xff) = true := by simp [h2, h3]
+  have hend : (m.marker && m.patOf (restartOrd m ep chain st.ctl st.endMark) == 0xff) = true := by simp [h2, h3]
   rw [scanOrders]
   simp only [hosv', if_false, hw, decide_true, Bool.true_and, if_true, hend]
 
@@ -278,13 +286,13 @@ theorem no_start_rejected (m : LinMod) (ep chain : Nat) (hw : ModWF m) (hep : ep
         · omega
       by_cases hwrap : m.len ≤ nord
       · -- the wrapped iteration
-        have hR := restartOrd_eq m ep chain st.ctl hw.rst
-        by_cases hU : isPlay m m.rst ∧ st.ctl.getD m.rst 0xff = chain
+        have hR := restartOrd_eq m ep chain st.ctl st.endMark hw.rst
+        by_cases hU : isPlay m m.rst ∧ belowEp ep st.endMark = false ∧ st.ctl.getD m.rst 0xff = chain
         · rw [if_pos hU] at hR
-          have he := hP hU.1 hU.2
+          have he := hP hU.1 hU.2.2
           rw [scanOrders_wrap_play m ep chain fuel nord st hwrap hw.mkNpat (by rw [hR]; exact hU.1) hosv', hR] at h
           obtain ⟨_, _, hst⟩ := procValid_done m ep chain fuel m.rst _ stF oF rF h
-            (Or.inl ⟨he, by show st.ctl.getD m.rst 0xff ≠ 0xff; rw [hU.2]; exact hc⟩)
+            (Or.inl ⟨he, by show st.ctl.getD m.rst 0xff ≠ 0xff; rw [hU.2.2]; exact hc⟩)
           rcases hst with hst | hst <;> (rw [hst]; exact hav)
         · rw [if_neg hU] at hR
           by_cases hepx : ep = x
@@ -392,7 +400,7 @@ theorem getD_replicate_lt {α} (n i : Nat) (a d : α) (h : i < n) : (List.replic
 theorem accepted_facts (m : LinMod) (ep chain : Nat) (ctl0 : List Nat) (info0 : List OrdInfo) (o1 : Nat)
     (hw : ModWF m) (hep : ep < m.len) (hstart : SkipRange m ep o1) (ho1 : isPlay m o1) (hle : ep ≤ o1)
     (hlow : ep ≠ 0 → ∀ o, o < ep → ctl0.getD o 0xff ≠ 0xff)
-    (hown : ep ≠ 0 → isPlay m 0 → ctl0.getD 0 0xff ≠ chain) (hc : chain < 255) (hl : m.len ≤ ctl0.length)
+    (hc : chain < 255) (hl : m.len ≤ ctl0.length)
     (hacc : 0 ≤ (scanModule m ep chain ctl0 info0).ret) :
     (ep ≠ 0 → ctl0.getD o1 0xff = 0xff) ∧
     ((info0.getD o1 {}).time < 0 → o1 < info0.length →
@@ -410,7 +418,7 @@ theorem accepted_facts (m : LinMod) (ep chain : Nat) (ctl0 : List Nat) (info0 : 
     intro h; rw [hrEdef, h]; split <;> rfl
   obtain ⟨e, he⟩ : ∃ e : PlayEnv, e = { m := m, si := { seq := chain, ep := ep, endOrd := oF, endRow := rE, num := cntAt stF.cnt oF rE }, ctl := stF.ctl, info := List.replicate (o1 + 1) { speed := m.spd, bpm := m.bpm } } := ⟨_, rfl⟩
   have HS : SimHyp m ep chain ctl0 e o1 stF oF rE := by
-    refine ⟨hw, hep, hstart, ho1, hle, hlow, hown, hc, ?_, ?_, ?_, ?_, ?_, ?_, ?_⟩
+    refine ⟨hw, hep, hstart, ho1, hle, hlow, hc, ?_, ?_, ?_, ?_, ?_, ?_, ?_⟩
     all_goals (rw [he])
     intro _; exact Iff.rfl
   have hinfo : (e.info.getD o1 {}).speed = m.spd ∧ (e.info.getD o1 {}).bpm = m.bpm := by
@@ -560,7 +568,7 @@ theorem seqLoop_ok (m : LinMod) (hw : ModWF m) : ∀ (fuel : Nat) (acc : List Se
                 (fun h => absurd h hep0) hacc0
               have hown : ep ≠ 0 → isPlay m 0 → ctl.getD 0 0xff ≠ acc.length := by
                 intro _ _; rw [hI.ctl0]; have := hI.pos; omega
-              obtain ⟨t1, t2, t3⟩ := accepted_facts m ep acc.length ctl info o1 hw p1 s1 s2 s3 (fun _ => p3) hown
+              obtain ⟨t1, t2, t3⟩ := accepted_facts m ep acc.length ctl info o1 hw p1 s1 s2 s3 (fun _ => p3)
                 (by omega) (by rw [hI.ctlLen]; exact hlen) hacc0
               have hneg : (info.getD o1 {}).time < 0 := by
                 by_cases h : 0 ≤ (info.getD o1 {}).time
@@ -644,7 +652,7 @@ theorem scanSequences_seqHyp (m : LinMod) (hw : ModWF m) (hok : (scanSequences m
     obtain ⟨o1, s1, s2, s3⟩ := accepted_start m 0 0 ctl0 info0 hw hlen0 (by decide)
       (fun _ _ => by rw [hc0get]; decide) hacc0
     obtain ⟨_, t2, t3⟩ := accepted_facts m 0 0 ctl0 info0 o1 hw hlen0 s1 s2 s3 (fun h => absurd rfl h)
-      (fun h => absurd rfl h) (by decide) (by rw [hc0len]; exact hlen) hacc0
+      (by decide) (by rw [hc0len]; exact hlen) hacc0
     obtain ⟨u1, u2, u3⟩ := t2 (by rw [hi0get]; decide) (by rw [hi0len]; have := s2.1; omega)
     rw [← hr0] at u1 u2 u3 t3
     have hclaim : r0.ctl.getD 0 0xff = 0 := by
@@ -670,7 +678,7 @@ theorem scanSequences_seqHyp (m : LinMod) (hw : ModWF m) (hok : (scanSequences m
     rw [heq] at hk ⊢
     simp only at hk
     obtain ⟨ctlk, infok, o1k, a1, a2, a3, a4, a5, a6, a7, a8, a9, a10, a11, a12, a13, a14, a15⟩ := hAll k hk
-    refine ⟨ctlk, infok, o1k, a1, ⟨hw, a2, a3, a4, a5, a6, a7, a8, a9, by rw [← a1]; exact a10, rfl, ?_, ?_, ⟨a12, a13⟩⟩, a15⟩
+    refine ⟨ctlk, infok, o1k, a1, ⟨hw, a2, a3, a4, a5, a6, a8, a9, by rw [← a1]; exact a10, rfl, ?_, ?_, ⟨a12, a13⟩⟩, a15⟩
     · show (SeqScan.env _ m k).si = _
       simp only [SeqScan.env]
       rw [← a1]
